@@ -325,6 +325,139 @@ def gen_consts():
     return "\n".join(out)
 
 
+# ---------------------------------------------------------------------------------------------------
+# decision sites: the relational operator the source uses at a named comparison, regenerated on every
+# run into Compass/Gen/Decisions.lean.  Each site is tied to the hand-written model by a theorem
+# `src_<site>` in the Props file of the property that relies on it ("the model's function decides by
+# the operator the source has there"), so that `<` turned into `<=` in the Rust source breaks that
+# proof obligation whether or not a generated case lands on the tie.  A site that is no longer
+# recognised (the line was reshaped) is emitted as `Rel.unknown`: only the theorems that cite it stop
+# checking, the translator as a whole does not fail.
+OPS = {"<": "lt", "<=": "le", ">": "gt", ">=": "ge", "==": "eq", "!=": "ne"}
+FLIP = {"lt": "gt", "le": "ge", "gt": "lt", "ge": "le", "eq": "eq", "ne": "ne"}
+OP_RE = r"(<=|>=|==|!=|<|>)"
+
+# (site, file, scope (fn name or None), lhs regex, rhs regex)
+SITES = [
+    ("relax_improves", CORE + "/algorithm/search/a_star/a_star_algorithm.rs", None, r"tentative_gscore", r"existing_gscore"),
+    ("term_solution_size", CORE + "/model/termination/termination_model.rs", "terminate_search", r"solution_size", r"\*limit"),
+    ("term_iterations", CORE + "/model/termination/termination_model.rs", "terminate_search", r"iteration \+ 1", r"\*limit"),
+    ("term_runtime", CORE + "/model/termination/termination_model.rs", "terminate_search", r"dur", r"\*limit"),
+    ("term_frequency", CORE + "/model/termination/termination_model.rs", "terminate_search", r"iteration % frequency", r"0"),
+    ("cost_strictly_positive", CORE + "/model/unit/cost.rs", "enforce_strictly_positive", r"cost", r"Cost::ZERO"),
+    ("cost_non_negative", CORE + "/model/unit/cost.rs", "enforce_non_negative", r"cost", r"Cost::ZERO"),
+    ("ksp_exact", CORE + "/algorithm/search/ksp/ksp_termination_criteria.rs", "terminate_search", r"solution_size", r"k"),
+    ("ksp_max_iteration", CORE + "/algorithm/search/ksp/ksp_termination_criteria.rs", "terminate_search", r"\*max as usize", r"k"),
+    ("ksp_factor", CORE + "/algorithm/search/ksp/ksp_termination_criteria.rs", "terminate_search", r"\(\*factor as usize\)\.saturating_mul\(solution_size\)", r"k"),
+    ("yens_loop", CORE + "/algorithm/search/ksp/yens_algorithm.rs", None, r"accepted\.len\(\)", r"query\.k"),
+    ("restriction_weight", APP + "/app/compass/config/frontier_model/vehicle_restrictions/vehicle_restriction.rs", None, r"weight_in_restriction_unit", r"\*restriction_weight"),
+    ("restriction_weight_per_axle", APP + "/app/compass/config/frontier_model/vehicle_restrictions/vehicle_restriction.rs", None, r"weight_per_axle", r"\*restriction_weight"),
+    ("restriction_length", APP + "/app/compass/config/frontier_model/vehicle_restrictions/vehicle_restriction.rs", None, r"length_in_restriction_unit", r"\*restriction_length"),
+    ("restriction_width", APP + "/app/compass/config/frontier_model/vehicle_restrictions/vehicle_restriction.rs", None, r"width_in_restriction_unit", r"\*restriction_width"),
+    ("restriction_height", APP + "/app/compass/config/frontier_model/vehicle_restrictions/vehicle_restriction.rs", None, r"height_in_restriction_unit", r"\*restriction_height"),
+    ("restriction_trailer_length", APP + "/app/compass/config/frontier_model/vehicle_restrictions/vehicle_restriction.rs", None, r"trailer_length_in_restriction_unit", r"\*restriction_length"),
+    ("vertex_match_tolerance", APP + "/plugin/input/default/vertex_rtree/plugin.rs", None, r"&distance", r"tolerance_distance"),
+    ("edge_match_tolerance", APP + "/plugin/input/default/edge_rtree/edge_rtree_input_plugin.rs", None, r"distance", r"tolerance"),
+    ("phev_battery_left", PT + "/routee/vehicle/default/phev.rs", None, r"battery_soc_percent", r"0\.0"),
+    ("energy_rate_floor", PT + "/routee/prediction/prediction_model_ops.rs", None, r"energy_rate", r"minimum_energy_rate"),
+    ("cache_precision_high", CORE + "/util/cache_policy/float_cache_policy.rs", None, r"\*precision", r"10"),
+    ("cache_precision_low", CORE + "/util/cache_policy/float_cache_policy.rs", None, r"\*precision", r"-10"),
+    ("custom_u64_negative", CORE + "/model/state/custom_feature_format.rs", None, r"value", r"&StateVar::ZERO"),
+    ("scc_largest", CORE + "/algorithm/component/scc.rs", None, r"component\.len\(\)", r"largest_component\.len\(\)"),
+    ("create_time_speed", CORE + "/model/unit/builders.rs", None, r"s", r"Speed::ZERO"),
+    ("create_time_distance", CORE + "/model/unit/builders.rs", None, r"d", r"Distance::ZERO"),
+    ("create_speed_time", CORE + "/model/unit/builders.rs", None, r"t", r"Time::ZERO"),
+    ("speed_from_str_negative", CORE + "/model/unit/speed.rs", None, r"value", r"0\.0"),
+    ("loader_src_in_range", CORE + "/model/network/graph_loader.rs", None, r"e\.src_vertex_id\.0", r"vertices\.len\(\)"),
+    ("loader_dst_in_range", CORE + "/model/network/graph_loader.rs", None, r"e\.dst_vertex_id\.0", r"vertices\.len\(\)"),
+    ("max_speed_fold", CORE + "/model/traversal/default/speed_traversal_engine.rs", None, r"acc_max", r"\*row"),
+    ("interp_round_half", PT + "/routee/prediction/interpolation/interp.rs", None, r"diff", r"0\.5"),
+    ("find_nearest_loop", PT + "/routee/prediction/interpolation/utils.rs", None, r"low", r"high"),
+    ("find_nearest_mid", PT + "/routee/prediction/interpolation/utils.rs", None, r"arr\[mid\]", r"target"),
+    ("find_nearest_last", PT + "/routee/prediction/interpolation/utils.rs", None, r"arr\[low\]", r"target"),
+    ("heading_wrap_high", CORE + "/model/access/default/turn_delays/edge_heading.rs", None, r"angle", r"180"),
+    ("heading_wrap_low", CORE + "/model/access/default/turn_delays/edge_heading.rs", None, r"angle", r"-180"),
+]
+
+
+def fn_scope(src, name):
+    """text of `fn name(...) ... { body }` by brace matching; None when absent"""
+    m = re.search(r"\bfn " + re.escape(name) + r"\b", src)
+    if not m:
+        return None
+    i = src.find("{", m.end())
+    # skip a `where`-less signature: the first `{` after the parameter list's closing `)`
+    depth, j = 0, i
+    while j < len(src):
+        if src[j] == "{":
+            depth += 1
+        elif src[j] == "}":
+            depth -= 1
+            if depth == 0:
+                return src[i:j + 1]
+        j += 1
+    return None
+
+
+def strip_comments(src):
+    return re.sub(r"//[^\n]*", "", src)
+
+
+def site_rel(path, scope, lhs, rhs):
+    try:
+        src = strip_comments(strip_tests(read(path)))
+    except OSError:
+        return "unknown", "file not found"
+    if scope:
+        src = fn_scope(src, scope)
+        if src is None:
+            return "unknown", f"fn {scope} not found"
+    B = r"(?<![\w.\])&*])"      # the operand starts here …
+    E = r"(?![\w.\[(])"         # … and ends here (not a prefix of a longer path / call / index)
+    found = []
+    for m in re.finditer(B + lhs + E + r"\s*" + OP_RE + r"\s*" + B + rhs + E, src):
+        found.append(OPS[m.group(1)])
+    for m in re.finditer(B + rhs + E + r"\s*" + OP_RE + r"\s*" + B + lhs + E, src):
+        found.append(FLIP[OPS[m.group(1)]])
+    if len(found) != 1:
+        return "unknown", f"{len(found)} matches"
+    return found[0], ""
+
+
+def gen_decisions():
+    out = ["-- GENERATED by tools/gen_model.py from /repo sources — do not edit",
+           "", "namespace Compass", "namespace Src", "",
+           "/-- the relational operator the Rust source has at a named comparison (`lhs OP rhs`, normalised to",
+           "the operand order of the site table in tools/gen_model.py); `unknown`: the line was not recognised -/",
+           "inductive Rel where", "  | lt | le | gt | ge | eq | ne | unknown",
+           "  deriving DecidableEq, Repr, Inhabited", "",
+           "/-- the comparison on natural numbers (`usize` / `u64` operands); `none` for an unrecognised site -/",
+           "def Rel.nat : Rel → Nat → Nat → Option Bool",
+           "  | .lt, a, b => some (decide (a < b))", "  | .le, a, b => some (decide (a ≤ b))",
+           "  | .gt, a, b => some (decide (b < a))", "  | .ge, a, b => some (decide (b ≤ a))",
+           "  | .eq, a, b => some (a == b)", "  | .ne, a, b => some (a != b)", "  | .unknown, _, _ => none", "",
+           "/-- the comparison on integers (`i16` / `i32` / `i64` operands) -/",
+           "def Rel.int : Rel → Int → Int → Option Bool",
+           "  | .lt, a, b => some (decide (a < b))", "  | .le, a, b => some (decide (a ≤ b))",
+           "  | .gt, a, b => some (decide (b < a))", "  | .ge, a, b => some (decide (b ≤ a))",
+           "  | .eq, a, b => some (a == b)", "  | .ne, a, b => some (a != b)", "  | .unknown, _, _ => none", "",
+           "/-- the comparison in the model's number type (`f64` operands): only the order relations -/",
+           "def Rel.num {α : Type} [LT α] [LE α] [DecidableLT α] [DecidableLE α] : Rel → α → α → Option Bool",
+           "  | .lt, a, b => some (decide (a < b))", "  | .le, a, b => some (decide (a ≤ b))",
+           "  | .gt, a, b => some (decide (b < a))", "  | .ge, a, b => some (decide (b ≤ a))",
+           "  | _, _, _ => none", ""]
+    notes = []
+    for name, path, scope, lhs, rhs in SITES:
+        rel, why = site_rel(path, scope, lhs, rhs)
+        rp = os.path.relpath(path, REPO)
+        out.append(f"/-- `{rp}`" + (f", fn `{scope}`" if scope else "") + f": `{lhs} OP {rhs}` (regular expressions) -/")
+        out.append(f"def {name} : Rel := .{rel}")
+        if rel == "unknown":
+            notes.append(f"{name} ({why})")
+    out += ["", "end Src", "end Compass", ""]
+    return "\n".join(out), notes
+
+
 def write_if_changed(path, text):
     os.makedirs(os.path.dirname(path), exist_ok=True)
     if os.path.exists(path) and read(path) == text:
@@ -338,12 +471,16 @@ def main():
     try:
         units = gen_units()
         consts = gen_consts()
+        decisions, unknown_sites = gen_decisions()
     except (TranslateError, OSError) as e:
         print(f"TRANSLATOR-FAILED: {e}")
         return 2
     ch1 = write_if_changed(os.path.join(OUT, "Units.lean"), units)
     ch2 = write_if_changed(os.path.join(OUT, "Consts.lean"), consts)
-    print(f"translator ok (Units.lean {'rewritten' if ch1 else 'unchanged'}, Consts.lean {'rewritten' if ch2 else 'unchanged'})")
+    ch3 = write_if_changed(os.path.join(OUT, "Decisions.lean"), decisions)
+    print(f"translator ok (Units.lean {'rewritten' if ch1 else 'unchanged'}, Consts.lean {'rewritten' if ch2 else 'unchanged'}, "
+          f"Decisions.lean {'rewritten' if ch3 else 'unchanged'}: {len(SITES) - len(unknown_sites)} of {len(SITES)} decision sites recognised"
+          + (f"; NOT recognised: {', '.join(unknown_sites)}" if unknown_sites else "") + ")")
     return 0
 
 
